@@ -3,7 +3,7 @@
     eq/ne, if_else, the characteristic-2 bitwise operators and_/xor/invert/or_, to_bits/from_bits)
     and of the subfield lifting of sectypes._SecFld, with their correctness theorems over an
     abstract field.  Definitions are over [Ops] (executable on [ZpOps p]); theorems over [FieldT]. *)
-Require Import MPyC.Base MPyC.Field MPyC.Zp.
+Require Import MPyC.Base MPyC.Field MPyC.Zp MPyC.Fermat.
 From Coq Require Import NArith ZArith Znumtheory Lia Bool List.
 Import ListNotations.
 
@@ -248,6 +248,34 @@ Proof. unfold ne_sec. rewrite eq_sec_correct. destruct (feq_dec K a b); ring. Qe
 End Fermat.
 End Thms.
 
+(** ** zero test and equality in ANY enumerated finite field: the Fermat hypothesis is discharged by
+    theories/Fermat.v (q = number of elements) *)
+Section FiniteField.
+Variable K : FieldT.
+Variable elts : list K.
+Hypothesis elts_nodup : NoDup elts.
+Hypothesis elts_all : forall x : K, In x elts.
+Let q : Z := Z.of_nat (length elts).
+
+Lemma finite_q_ge2 : (2 <= q)%Z.
+Proof. unfold q. pose proof (length_elts_ge2 K elts elts_nodup elts_all). lia. Qed.
+
+Lemma finite_fermat (a : K) : a <> f0 K -> fpow a (Z.to_nat (q - 1)) = f1 K.
+Proof.
+  intros Ha. unfold q. replace (Z.to_nat (Z.of_nat (length elts) - 1)) with (length elts - 1)%nat by lia.
+  apply (fermat_finite_field K elts elts_nodup elts_all a Ha).
+Qed.
+
+Theorem is_zero_finite (a : K) : is_zero q a = if feq_dec K a (f0 K) then f1 K else f0 K.
+Proof. apply is_zero_fermat; [exact finite_q_ge2|exact finite_fermat]. Qed.
+
+Theorem eq_sec_finite (a b : K) : eq_sec q a b = if feq_dec K a b then f1 K else f0 K.
+Proof. apply eq_sec_correct; [exact finite_q_ge2|exact finite_fermat]. Qed.
+
+Theorem ne_sec_finite (a b : K) : ne_sec q a b = if feq_dec K a b then f0 K else f1 K.
+Proof. apply ne_sec_correct; [exact finite_q_ge2|exact finite_fermat]. Qed.
+End FiniteField.
+
 (** * 3. Instance Z_p: executable entry points and Fermat by computation for small p *)
 Local Open Scope Z_scope.
 
@@ -280,7 +308,32 @@ Definition zp_binops (p r a b : Z) : list Z :=
     zval (fmul (ZpOps p) (mkZp p a) (mkZp p b));
     (if b mod p =? 0 then -1 else zp_div p r a b); zp_eq p a b; zp_ne p a b ].
 
-(** Fermat's little theorem for a concrete small prime, by enumeration *)
+(** == / != / is_zero over Z_p for EVERY prime p, no hypothesis left *)
+Theorem zp_is_zero_correct (p : Z) (Hp : prime p) (a : Zp p) :
+  is_zero (K := ZpOps p) p a = if Zp_dec p a (f0 (ZpOps p)) then f1 (ZpOps p) else f0 (ZpOps p).
+Proof.
+  pose proof (prime_ge_2 p Hp) as H2.
+  pose proof (is_zero_finite (ZpField p Hp) (zp_elts p) (zp_elts_nodup p) (zp_elts_all p ltac:(lia)) a) as H.
+  change (is_zero (K := ZpOps p) (Z.of_nat (length (zp_elts p))) a
+          = if Zp_dec p a (f0 (ZpOps p)) then f1 (ZpOps p) else f0 (ZpOps p)) in H.
+  rewrite zp_elts_length, Z2Nat.id in H by lia. exact H.
+Qed.
+
+Theorem zp_eq_correct (p : Z) (Hp : prime p) (a b : Zp p) :
+  eq_sec (K := ZpOps p) p a b = (if Zp_dec p a b then f1 (ZpOps p) else f0 (ZpOps p)) /\
+  ne_sec (K := ZpOps p) p a b = (if Zp_dec p a b then f0 (ZpOps p) else f1 (ZpOps p)).
+Proof.
+  pose proof (prime_ge_2 p Hp) as H2.
+  pose proof (eq_sec_finite (ZpField p Hp) (zp_elts p) (zp_elts_nodup p) (zp_elts_all p ltac:(lia)) a b) as H.
+  pose proof (ne_sec_finite (ZpField p Hp) (zp_elts p) (zp_elts_nodup p) (zp_elts_all p ltac:(lia)) a b) as H'.
+  change (eq_sec (K := ZpOps p) (Z.of_nat (length (zp_elts p))) a b
+          = if Zp_dec p a b then f1 (ZpOps p) else f0 (ZpOps p)) in H.
+  change (ne_sec (K := ZpOps p) (Z.of_nat (length (zp_elts p))) a b
+          = if Zp_dec p a b then f0 (ZpOps p) else f1 (ZpOps p)) in H'.
+  rewrite zp_elts_length, Z2Nat.id in H, H' by lia. split; assumption.
+Qed.
+
+(** Fermat's little theorem for a concrete small prime, by enumeration (superseded by Fermat.fermat_Zp) *)
 Definition fermat_check (p : Z) : bool :=
   forallb (fun n => zval (fpow (K := ZpOps p) (mkZp p (Z.of_nat n)) (Z.to_nat (p - 1))) =? 1)
           (seq 1 (Z.to_nat (p - 1))).
@@ -579,6 +632,15 @@ Proof.
   - exfalso. apply E. rewrite E'. reflexivity.
   - rewrite <- iota_0. apply unlift_iota.
 Qed.
+
+(** the same with the Fermat hypothesis for L discharged: L any enumerated finite field *)
+Theorem lift_eq_finite (eltsL : list L) : NoDup eltsL -> (forall x : L, In x eltsL) ->
+  forall a b, unlift (eq_sec (Z.of_nat (length eltsL)) (iota a) (iota b)) = Some (if feq_dec K a b then f1 K else f0 K).
+Proof.
+  intros Hnd Hall. apply lift_eq.
+  - apply (finite_q_ge2 L eltsL Hnd Hall).
+  - apply (finite_fermat L eltsL Hnd Hall).
+Qed.
 End Lift.
 
 (** ** A concrete instance of the lifting hypotheses: GF(2) inside GF(4) = GF(2)[X]/(X^2+X+1)
@@ -614,3 +676,14 @@ Definition iota24 (a : bool) : bool * bool := (a, false).
 Definition unlift24 (a : bool * bool) : option bool := if snd a then None else Some (fst a).
 Lemma GF4_fermat (x : GF4Field) : x <> f0 GF4Field -> fpow x (Z.to_nat (4 - 1)) = f1 GF4Field.
 Proof. destruct x as [[|] [|]]; intros H; try reflexivity. exfalso; apply H; reflexivity. Qed.
+
+Definition GF4_elts : list (bool * bool) := [(false, false); (true, false); (false, true); (true, true)].
+Lemma GF4_elts_nodup : NoDup GF4_elts.
+Proof. repeat constructor; simpl; intuition congruence. Qed.
+Lemma GF4_elts_all (x : GF4Field) : In x GF4_elts.
+Proof. destruct x as [[|] [|]]; simpl; auto. Qed.
+Definition GF2_elts : list bool := [false; true].
+Lemma GF2_elts_nodup : NoDup GF2_elts.
+Proof. repeat constructor; simpl; intuition congruence. Qed.
+Lemma GF2_elts_all (x : GF2Field) : In x GF2_elts.
+Proof. destruct x; simpl; auto. Qed.
